@@ -3,6 +3,7 @@ package props
 import (
 	"fmt"
 	"go/token"
+	"go/types"
 	"strings"
 
 	"golang.org/x/tools/go/ssa"
@@ -20,7 +21,7 @@ const (
 func c18(c *Ctx) {
 	p, r := c.P, c.R
 	r.Technique = "who-may-remove / who-may-replace inventory over SSA field stores; must-pass-through (cut) checks of the guards at every removal and record-replacement site; value-flow check of the failure counter"
-	r.Explanation = "Decides which code paths may remove or replace a table entry and under which guards: (R1) from the bucket-full branch of the add path no removal from entries is reachable, only the bounded front-push into replacements; (R2) every call site of the function that shrinks bucket.entries is guarded as one of {liveness failure: !didRespond and credit/3 <= 0; fruitless queries: counter >= 5 and len(entries) >= 16/4, where the counter is 0 on the success path and stored-count+1 on the failure path and is reset on success; explicit deletion: an otherwise mutation-free function deleting its own argument}; liveness credit is divided by 3 on failure and incremented on success; (R3) the remover appends a replacement iff the replacement list is non-empty, takes it out of that list, and registers it; (R4) a stored record is replaced only under seq(new) > seq(old) or the inbound flag, an endpoint change clears the verified flag on every path, the IP change is re-checked against the limits; (R5) replacements are pushed at the front. Not decided: equivalence with a reference model over operation histories."
+	r.Explanation = "Decides which code paths may remove or replace a table entry and under which guards: (R1) from the bucket-full branch of the add path no removal from entries is reachable, only the bounded front-push into replacements; (R2) every call site of the function that shrinks bucket.entries is guarded as one of {liveness failure: !didRespond and credit/3 <= 0; fruitless queries: counter >= 5 and len(entries) >= 16/4, where the counter is 0 on the success path and stored-count+1 on the failure path and is reset on success; explicit deletion: an otherwise mutation-free function deleting its own argument}; liveness credit is divided by 3 on failure and incremented on success; (R3) the remover appends a replacement iff the replacement list is non-empty, takes it out of that list, and registers it; (R4) a stored record is replaced only under seq(new) > seq(old) or the inbound flag, the inbound flag can be true only for the sender parameter of a talk-request entry point (followed through parameters and operation-record fields), an endpoint change clears the verified flag on every path, the IP change is re-checked against the limits; (R5) replacements are pushed at the front. Not decided: equivalence with a reference model over operation histories."
 	r.Assumptions = []string{"enode.DB FindFails/UpdateFindFails persist the counter faithfully", "slices.Delete / slices.DeleteFunc remove exactly the selected elements"}
 	m := newTableModel(c)
 	r.Floor("R1.full-bucket", 2)
@@ -81,6 +82,14 @@ func c18(c *Ctx) {
 					"from the bucket-full edge no store to entries and no remover call is reachable", "a full bucket can lose or gain an entry on the add path: "+p.PathString(wp))
 				// the only table mutation reachable is the bounded replacement push
 				pushes := core.BlocksWith(fn, func(in ssa.Instruction) bool {
+					// the push written out in the add path itself
+					if st, isSt := in.(*ssa.Store); isSt {
+						for _, rw := range m.repl {
+							if rw.Store == st && m.shape(rw, "bucket", "replacements") == shapeBoundedPush {
+								return true
+							}
+						}
+					}
 					ci, ok := in.(ssa.CallInstruction)
 					if !ok {
 						return false
@@ -285,70 +294,34 @@ func c18(c *Ctx) {
 		wp := core.InstrGuarded(w.Store, seqGate, nil)
 		r.Check(wp == nil, "R4.record-update", key+" seq-rule", p.Pos(w.Store.Pos()),
 			"record replaced only under seq(new) > seq(old) or the inbound flag", "a stored record can be replaced by one with an equal or lower sequence number from a third party: "+p.PathString(wp))
-		// endpoint change clears the verified flag: after the store, every exit either cleared it or saw ip-equal and port-equal
-		clears := func(in ssa.Instruction) bool { return callReaches(in, m.clearLive) || storesFalseLive(in) }
-		eqFact := func(callee string) func(fs []core.Fact) bool {
-			return core.AnyFact(func(f core.Fact) bool {
-				if f.Op != token.EQL {
-					return false
-				}
-				is := func(v ssa.Value) *ssa.Call {
-					if cc, ok := v.(*ssa.Call); ok && core.CalleeID(cc) == callee && len(cc.Call.Args) > 0 {
-						return cc
-					}
-					return nil
-				}
-				cx, cy := is(f.X), is(f.Y)
-				if cx == nil || cy == nil {
-					return false
-				}
-				// one side is the new record, the other the record that was stored BEFORE the
-				// replacement: a stored-record operand read after the replacement is the new record
-				// compared with itself
-				ofNew := func(c *ssa.Call) bool { return core.Derives(c.Call.Args[0], core.Is(newRec), core.DeriveOpts{}) }
-				var old *ssa.Call
-				switch {
-				case ofNew(cx) && !ofNew(cy):
-					old = cy
-				case ofNew(cy) && !ofNew(cx):
-					old = cx
-				default:
-					return false
-				}
-				var evalAt ssa.Instruction = old
-				core.Derives(old.Call.Args[0], func(v ssa.Value) bool {
-					if u, ok := v.(*ssa.UnOp); ok && u.Op == token.MUL {
-						if t, fld, _, ok := core.FieldRef(u.X); ok && t == "tableNode" && fld == "Node" {
-							evalAt = u
-						}
-					}
-					return false
-				}, core.DeriveOpts{})
-				return !core.MayFollow(w.Store, evalAt)
-			})
-		}
-		clearBlocks := core.BlocksWith(fn, clears)
-		for _, pair := range []struct{ what, callee string }{{"ip", enodeIPAddr}, {"port", enodeUDP}} {
-			g := eqFact(pair.callee)
-			// facts established before the store also count (ipchanged is tested before and after)
-			pre := core.InstrGuarded(w.Store, g, nil) == nil
-			var wpp []*ssa.BasicBlock
-			if !pre {
-				wpp = core.CutReach(core.CutSpec{Fn: fn, From: w.Store.Block(),
-					Cut: func(b *ssa.BasicBlock, i int) bool { return g(core.EdgeFacts(b, i)) || clearBlocks[b.Succs[i]] },
-					Target: func(prev, b *ssa.BasicBlock) bool {
-						_, isRet := b.Instrs[len(b.Instrs)-1].(*ssa.Return)
-						return isRet && !clearBlocks[b]
-					}})
+		// who may raise the inbound flag: "any change only when the node itself contacted us"
+		for pi, pa := range fn.Params {
+			if bt, ok := pa.Type().Underlying().(*types.Basic); !ok || bt.Kind() != types.Bool {
+				continue
 			}
-			r.Check(wpp == nil, "R4.record-update", key+" "+pair.what+"-change-clears-verified", p.Pos(w.Store.Pos()),
-				"every exit after the replacement either cleared isValidatedLive or established that the "+pair.what+" is unchanged", "a changed "+pair.what+" can leave the node marked as verified: "+p.PathString(wpp))
+			cs := p.CallersOfFn(fn)
+			for _, cf := range core.SortedFuncs(cs) {
+				for ci, site := range cs[cf] {
+					bad := inboundFlagSources(c, site.Common().Args[pi], cf, site, 0)
+					r.Check(bad == "", "R4.record-update", fmt.Sprintf("%s inbound-flag %s #%d", key, core.FuncName(cf), ci+1), p.Pos(site.Pos()),
+						"the inbound flag is true only for the sender of a talk request being handled", "a record can replace the stored one regardless of its sequence number although the node did not contact us: "+bad)
+				}
+			}
 		}
+		endpointChangeClears(c, m, w, "R4.record-update", key)
 	}
 
 	// ---------- R5: push-front
 	seenPush := map[*ssa.Function]bool{}
 	for _, w := range m.repl {
+		if _, isCall := boundedPush(w.Val); !isCall {
+			if ip := inlinePush(w.Val); ip != nil && !seenPush[w.Fn] {
+				seenPush[w.Fn] = true
+				// inlinePush only matches when the newcomer is stored at index 0 after the shift
+				r.Check(ip.newcomer != nil, "R5.push-front", core.FuncName(w.Fn), p.Pos(w.Store.Pos()), "the new replacement is stored at index 0 (most recent first)", "the bounded push does not place the newcomer at the front")
+			}
+			continue
+		}
 		if call, ok := boundedPush(w.Val); ok {
 			f := core.StaticCalleeFn(call)
 			if seenPush[f] {
@@ -583,4 +556,182 @@ func edgeFactsPub(from, to *ssa.BasicBlock) []core.Fact {
 		}
 	}
 	return nil
+}
+
+// inboundFlagSources follows the value given as the "inbound" flag back to the places that can
+// make it true; each such place must be a call made by a talk-request entry point with that
+// entry point's own sender parameter as the node. Returns "" when all sources are fine.
+func inboundFlagSources(c *Ctx, v ssa.Value, in *ssa.Function, site ssa.CallInstruction, depth int) string {
+	p := c.P
+	if depth > 3 {
+		return "flag provenance deeper than 3 calls"
+	}
+	v = core.Unwrap(v)
+	if b, isC := core.ConstBool(v); isC {
+		if !b {
+			return ""
+		}
+		return inboundTrueSite(c, in, site)
+	}
+	// a field of an operation record: every store to that field, anywhere
+	if t, f, ok := core.LoadedField(v); ok {
+		for _, fn := range p.ModuleFuncs() {
+			for _, b := range fn.Blocks {
+				for _, i2 := range b.Instrs {
+					st, isSt := i2.(*ssa.Store)
+					if !isSt {
+						continue
+					}
+					if t2, f2, _, ok2 := core.FieldRef(st.Addr); !ok2 || t2 != t || f2 != f {
+						continue
+					}
+					bv, isC := core.ConstBool(st.Val)
+					if !isC {
+						if pa, isP := st.Val.(*ssa.Parameter); isP {
+							idx := -1
+							for j, q := range fn.Params {
+								if q == pa {
+									idx = j
+								}
+							}
+							for cf, css := range p.CallersOfFn(fn) {
+								for _, s2 := range css {
+									if bad := inboundFlagSources(c, s2.Common().Args[idx], cf, s2, depth+1); bad != "" {
+										return bad
+									}
+								}
+							}
+							continue
+						}
+						return "the flag stored in " + t + "." + f + " at " + p.Pos(st.Pos()) + " is not a constant"
+					}
+					if bv {
+						// the function that builds an inbound operation: all of its callers
+						if bad := inboundBuilder(c, fn, depth); bad != "" {
+							return bad
+						}
+					}
+				}
+			}
+		}
+		return ""
+	}
+	if pa, isP := v.(*ssa.Parameter); isP {
+		idx := -1
+		for j, q := range in.Params {
+			if q == pa {
+				idx = j
+			}
+		}
+		for cf, css := range p.CallersOfFn(in) {
+			for _, s2 := range css {
+				if bad := inboundFlagSources(c, s2.Common().Args[idx], cf, s2, depth+1); bad != "" {
+					return bad
+				}
+			}
+		}
+		return ""
+	}
+	return "the flag passed at " + p.Pos(site.Pos()) + " has an unrecognised source"
+}
+
+// inboundBuilder: fn sets the inbound flag for the node it is given; every caller must be a
+// talk-request entry point passing its own sender.
+func inboundBuilder(c *Ctx, fn *ssa.Function, depth int) string {
+	p := c.P
+	cs := p.CallersOfFn(fn)
+	if len(cs) == 0 {
+		return ""
+	}
+	for cf, css := range cs {
+		for _, s2 := range css {
+			if bad := inboundTrueSite(c, cf, s2); bad != "" {
+				return bad
+			}
+		}
+	}
+	return ""
+}
+
+// inboundTrueSite: the call at `site` (in function `in`) marks a node as having contacted us.
+func inboundTrueSite(c *Ctx, in *ssa.Function, site ssa.CallInstruction) string {
+	p := c.P
+	_, desc := c01Roots(p)
+	if desc[in] != "talk handler" {
+		return core.FuncName(in) + " (" + p.Pos(site.Pos()) + ") is not a talk-request entry point"
+	}
+	for _, a := range site.Common().Args {
+		if pa, isP := core.Unwrap(a).(*ssa.Parameter); isP && pa.Parent() == in && strings.HasSuffix(pa.Type().String(), "enode.Node") {
+			return ""
+		}
+	}
+	return "the node marked inbound at " + p.Pos(site.Pos()) + " is not the sender parameter of the entry point"
+}
+
+// endpointChangeClears: after the stored record of a table entry is replaced (write w), every
+// exit either cleared isValidatedLive or established that ip and port are unchanged. Shared by
+// C18 (displacement / record update) and C11 (only liveness-checked endpoints are offered).
+func endpointChangeClears(c *Ctx, m *tableModel, w core.FieldWrite, rule, key string) {
+	p, r := c.P, c.R
+	fn := w.Fn
+	newRec := w.Val
+	// endpoint change clears the verified flag: after the store, every exit either cleared it or saw ip-equal and port-equal
+	clears := func(in ssa.Instruction) bool { return callReaches(in, m.clearLive) || storesFalseLive(in) }
+	eqFact := func(callee string) func(fs []core.Fact) bool {
+		return core.AnyFact(func(f core.Fact) bool {
+			if f.Op != token.EQL {
+				return false
+			}
+			is := func(v ssa.Value) *ssa.Call {
+				if cc, ok := v.(*ssa.Call); ok && core.CalleeID(cc) == callee && len(cc.Call.Args) > 0 {
+					return cc
+				}
+				return nil
+			}
+			cx, cy := is(f.X), is(f.Y)
+			if cx == nil || cy == nil {
+				return false
+			}
+			// one side is the new record, the other the record that was stored BEFORE the
+			// replacement: a stored-record operand read after the replacement is the new record
+			// compared with itself
+			ofNew := func(c *ssa.Call) bool { return core.Derives(c.Call.Args[0], core.Is(newRec), core.DeriveOpts{}) }
+			var old *ssa.Call
+			switch {
+			case ofNew(cx) && !ofNew(cy):
+				old = cy
+			case ofNew(cy) && !ofNew(cx):
+				old = cx
+			default:
+				return false
+			}
+			var evalAt ssa.Instruction = old
+			core.Derives(old.Call.Args[0], func(v ssa.Value) bool {
+				if u, ok := v.(*ssa.UnOp); ok && u.Op == token.MUL {
+					if t, fld, _, ok := core.FieldRef(u.X); ok && t == "tableNode" && fld == "Node" {
+						evalAt = u
+					}
+				}
+				return false
+			}, core.DeriveOpts{})
+			return !core.MayFollow(w.Store, evalAt)
+		})
+	}
+	clearBlocks := core.BlocksWith(fn, clears)
+	for _, pair := range []struct{ what, callee string }{{"ip", enodeIPAddr}, {"port", enodeUDP}} {
+		g := eqFact(pair.callee)
+		// facts established before the store also count (ipchanged is tested before and after)
+		pre := core.InstrGuarded(w.Store, g, nil) == nil
+		var wpp []*ssa.BasicBlock
+		if !pre {
+			wpp = core.CutReach(core.CutSpec{Fn: fn, From: w.Store.Block(),
+				Cut: func(b *ssa.BasicBlock, i int) bool { return g(core.EdgeFacts(b, i)) || clearBlocks[b.Succs[i]] },
+				Target: func(prev, b *ssa.BasicBlock) bool {
+					_, isRet := b.Instrs[len(b.Instrs)-1].(*ssa.Return)
+					return isRet && !clearBlocks[b]
+				}})
+		}
+		r.Check(wpp == nil, rule, key+" "+pair.what+"-change-clears-verified", p.Pos(w.Store.Pos()),
+			"every exit after the replacement either cleared isValidatedLive or established that the "+pair.what+" is unchanged", "a changed "+pair.what+" can leave the node marked as verified: "+p.PathString(wpp))
+	}
 }
